@@ -188,6 +188,19 @@ fn main() {
                             n += 1;
                         }
                     }
+                    "freeze" => {
+                        exhaustive = false;
+                        let bound: usize = arg(&args, "--solo-bound").and_then(|s| s.parse().ok()).unwrap_or(64);
+                        for k in 0..max_runs {
+                            if k % of != part {
+                                continue;
+                            }
+                            let s = seed.wrapping_mul(1_000_003).wrapping_add((si * 7919 + k) as u64);
+                            let src = Box::new(explore::Freeze::new(s, bound));
+                            let (res, _) = exec::run(scn, src, record_ops, quarantine);
+                            sink.put(scn, &res, &json!({"mode":"freeze","seed":s}));
+                        }
+                    }
                     "random" | "pct" => {
                         exhaustive = false;
                         for k in 0..max_runs {
